@@ -48,7 +48,15 @@ def check(fx, rep, b, need_badparam, need_nokey=True):
     if need_badparam:
         bp = [bb for bb, i, s in fc.aggregates("DdsError", "BadParameter")]
         gn = fc.guards(lambda ce: 0 if (ce.expr[0] == "discr" and E.is_call(ce.expr[1], "Iterator::find") and E.mentions_field(ce.expr[1], "registered_instance_info")) else None)
-        add("R28a", "unknown instance fails with BadParameter", bool(bp) and bool(gn) and fc.only_through(bp, gn), "no BadParameter on the not-registered arm")
+        # `find(..).ok_or(BadParameter)?` builds the error value before the decision and returns it exactly when nothing was found
+        via_ok_or = []
+        for bb2, t2 in fc.calls("Option::ok_or", "Option::ok_or_else"):
+            a0, a1 = fc.arg(t2, 0), fc.arg(t2, 1)
+            if E.is_call(E.strip_casts(a0), "Iterator::find") and E.mentions_field(a0, "registered_instance_info") and \
+                    any(x[0] == "adt" and x[2] == "BadParameter" for x in E.walk(a1)):
+                via_ok_or.append(bb2)
+        ok_bp = bool(bp) and ((bool(gn) and fc.only_through(bp, gn)) or (bool(via_ok_or) and all(any(o in m.reachable(x) for o in via_ok_or) for x in bp)))
+        add("R28a", "unknown instance fails with BadParameter", ok_bp, "no BadParameter on the not-registered arm")
     # handle provenance
     ih = fc.calls("get_instance_handle_from_key_holder_data")
     add("R28c", "instance handle is computed from the key holder", bool(ih) and all(E.mentions_call(fc.arg(t, 0), "KeyHolderData::from_dynamic_data") for bb, t in ih),
